@@ -1,9 +1,10 @@
 CONSTANTS
   NameSeq <- N2
   Cidrs <- Fam3
-  BlockSpots <- Spots2
+  BlockSpots <- Spots1
   CidrOverlap <- TabOverlap
   CidrCovers <- TabCovers
+  MaxFail = 1
   Ties = TRUE
   SimLen = 60
 INIT GInit
